@@ -1167,7 +1167,14 @@ def replay(ctx, payload):
         return 1 if viol else 0
     with process_zone(case.get("process_tz")):
         viol, st = judge(case)
+    import sys
+    unlisted = 0
     for (kind, observed, required) in viol:
-        print("VIOLATES %s: %s; required: %s" % (kind, observed, required))
+        k = lib.known_match(sys.modules[__name__], {"kind": kind, "case": case, "observed": observed})
+        if k is not None:
+            print("KNOWN-FINDING %s: %s: %s" % (k["id"], kind, observed))
+        else:
+            unlisted += 1
+            print("VIOLATES %s: %s; required: %s" % (kind, observed, required))
     print("stats:", st)
-    return 1 if viol else 0
+    return 1 if unlisted else 0
